@@ -40,8 +40,31 @@ HERE = os.path.abspath(__file__)
 MP = refmp.build(b'BND', [(refmp.cd('t'), b'v%d'), (refmp.cd('f', 'n.bin', 'text/plain'), b'data%d')], epilogue=b'\r\n')[0]
 MP_RICH = refmp.build(b'BND', [(refmp.cd('t'), b'v%d'), (refmp.cd('f', 'n.png', 'image/png') + b'\r\nX-Owner: owner-%d', b'data%d')], epilogue=b'\r\n')[0]
 MP = refmp.build(b'BND', [(refmp.cd('t'), b'v%d'), (refmp.cd('f', 'n.bin'), b'data%d')], epilogue=b'\r\n')[0]
-KINDS = ['getq', 'form', 'upload', 'raise', 'crash', '404', 'gen', 'wild', 'chunked', 'badform', 'badchunkj', 'badchunkh', 'notmod', 'rex', 'session', 'dm']
+KINDS = ['getq', 'form', 'upload', 'raise', 'crash', '404', 'gen', 'wild', 'chunked', 'badform', 'badchunkj', 'badchunkh', 'notmod', 'rex', 'session', 'dm', 'sfile', '404first']
 SESSION_SECRET = 'k8'
+
+
+_sroot = {}
+
+
+def static_root():
+    """two small files for the handlers that answer with static_file (removed again at the end of every shard / replay)"""
+    import tempfile
+    if 'd' not in _sroot or not os.path.isdir(_sroot['d']):
+        d = tempfile.mkdtemp(prefix='c08.', dir=os.environ.get('VERIF_WORK') or None)
+        for name, data in (('doc.txt', b'document text'), ('blob.zzunknown', b'\x00\x01opaque')):
+            with open(os.path.join(d, name), 'wb') as f:
+                f.write(data)
+            os.utime(os.path.join(d, name), (1_600_000_000, 1_600_000_000))
+        _sroot['d'] = d
+    return _sroot['d']
+
+
+def drop_static_root():
+    import shutil
+    d = _sroot.pop('d', None)
+    if d:
+        shutil.rmtree(d, ignore_errors=True)
 
 
 def src_prefix():
@@ -174,6 +197,22 @@ def make_app(om, obs):
     app.add_hook('before_request', stamp)
     app.route('/ta/dm', 'GET', tenant('A'))
     app.route('/tb/dm', 'GET', tenant('B'))
+    # static_file looks at the request of the DEFAULT application: the file requests are served by that one (one route, registered once
+    # per import; what its handler observes goes to the observations of the current execution)
+    dapp = om.default_app()
+    dapp.c08_obs = obs
+    if not getattr(dapp, 'c08_routes', False):
+        dapp.c08_routes = True
+
+        def sfile():
+            # request 1 downloads a text document, the others fetch a file of unknown type inline
+            ident = dapp.request.headers.get('X-Id')
+            dapp.c08_obs.setdefault(ident, []).append(('p1', dapp.request.path, dapp.request.query_string, dapp.response.status_code))
+            if ident == '1':
+                return om.static_file('doc.txt', root=static_root(), download='report-%s.txt' % ident)
+            return om.static_file('blob.zzunknown', root=static_root())
+        dapp.route('/sfile', 'GET', sfile)
+    app.c08_default = dapp
     app.route('/notmod', 'GET', notmod)
     app.route('/chunked', 'POST', chunked)
     app.route('/badform', 'POST', badform)
@@ -201,7 +240,7 @@ def environ_for(kind, ident):
         return wsgi.environ('GET', '/raise', headers=h)
     if kind == 'crash':
         return wsgi.environ('GET', '/crash', qs='who=' + ident, headers=h)
-    if kind == '404':
+    if kind in ('404', '404first'):       # ('404first': every execution starts from a fresh import - the first error pages of a process)
         return wsgi.environ('GET', '/nothing/' + ident, headers=h)
     if kind == 'gen':
         return wsgi.environ('GET', '/gen', qs='g=' + ident, headers=h)
@@ -215,6 +254,8 @@ def environ_for(kind, ident):
         # malformed chunked framing (mapped to the shared 400 object of errors_map); JSON or HTML error report, URLs of different length
         h2 = dict(h, Accept='application/json') if kind == 'badchunkj' else h
         return wsgi.environ('POST', '/chunked', qs='who=' + ident * (3 if kind == 'badchunkh' else 1), body=b'zz\r\n', chunked=True, headers=h2)
+    if kind == 'sfile':
+        return wsgi.environ('GET', '/sfile', qs='f=' + ident, headers=h)
     if kind == 'notmod':
         return wsgi.environ('GET', '/notmod', qs='n=' + ident, headers=h)
     if kind == 'dm':
@@ -249,7 +290,7 @@ def session_cookie():
 
 
 def serve(app, kind, ident):
-    c = wsgi.call(app, environ_for(kind, ident))
+    c = wsgi.call(app.c08_default if kind == 'sfile' else app, environ_for(kind, ident))
     if c.escaped is not None:
         return ('escaped', repr(c.escaped), b'')
     return (c.status, tuple((str(a), str(b)) for a, b in (c.headers or [])), c.body)
@@ -258,7 +299,7 @@ def serve(app, kind, ident):
 _solo = {}
 
 
-FRESH_KINDS = {'badform', 'badchunkj', 'badchunkh', 'session', 'upload'}     # requests answered through the shared error objects of errors_map:
+FRESH_KINDS = {'badform', 'badchunkj', 'badchunkh', 'session', 'upload', '404first', 'sfile'}     # requests answered through the shared error objects of errors_map:
 #                                                          every execution (and the stand-alone run) starts from a fresh import
 
 
@@ -313,7 +354,7 @@ def judge(om, kinds, x):
 
 QUICK_PAIRS = [('getq', k) for k in KINDS[:8]] + [('raise', 'crash'), ('form', 'upload'), ('wild', 'wild'), ('404', 'crash'), ('gen', 'gen'),
                ('chunked', 'chunked'), ('badform', 'badform'), ('badchunkj', 'badchunkh'), ('getq', 'notmod'), ('notmod', 'crash'),
-               ('rex', 'rex'), ('session', 'session'), ('upload', 'upload')]
+               ('rex', 'rex'), ('session', 'session'), ('upload', 'upload'), ('sfile', 'sfile'), ('404first', '404first')]
 
 
 def pairs():
@@ -341,6 +382,13 @@ def _split(om, kinds, bound, nsplit, flag, gran='line'):
 
 
 def shards(tier, seed):
+    try:
+        return _shards(tier, seed)
+    finally:
+        drop_static_root()       # (measuring runs in this process; every worker makes its own files)
+
+
+def _shards(tier, seed):
     om = sut.load()
     sut.snapshot_globals()
     out = []
@@ -376,6 +424,13 @@ FLOORS = {'executions': 10000, 'with_preemption': 10000, 'both_inside_framework'
 
 
 def work(spec):
+    try:
+        return _work(spec)
+    finally:
+        drop_static_root()
+
+
+def _work(spec):
     _, kinds, bound, lo, hi, opcode = spec
     gran = 'line'
     if opcode == 'call':
@@ -419,6 +474,13 @@ def work(spec):
 
 
 def replay(case):
+    try:
+        return _replay(case)
+    finally:
+        drop_static_root()
+
+
+def _replay(case):
     om = sut.load()
     sut.snapshot_globals()
     _solo.clear()
